@@ -85,13 +85,6 @@ fn check_from_segments<const SEGS: usize, const N: usize>() {
     }
 }
 
-/// BOUNDED: <= 2 segments of <= 4 ASCII bytes
-#[kani::proof]
-#[kani::stub_verified(is_rust_identifier)]
-#[kani::unwind(7)]
-fn from_segments_2x4() {
-    check_from_segments::<2, 4>();
-}
 
 /// BOUNDED: <= 3 segments of <= 4 ASCII bytes
 #[kani::proof]
@@ -99,54 +92,6 @@ fn from_segments_2x4() {
 #[kani::unwind(7)]
 fn from_segments_3x4() {
     check_from_segments::<3, 4>();
-}
-
-/// BOUNDED: Path::new / new_with_replace on module paths of <= 4 ASCII bytes and idents of <= 2:
-/// succeeds (no panic) exactly when from_segments on the split (after replacement) succeeds, and
-/// then yields the same path.  Panics are expected failures here, so the harness only calls the
-/// constructors when the oracle says they must succeed, and checks the oracle's `Err` side through
-/// from_segments.
-#[kani::proof]
-#[kani::unwind(8)]
-fn path_new_small() {
-    let module: &'static str = any_ascii_static::<4>();
-    let ident: &'static str = any_ascii_static::<2>();
-    // oracle split on "::"
-    let mb = module.as_bytes();
-    let mut parts: Vec<&'static str> = Vec::new();
-    let mut start = 0;
-    let mut i = 0;
-    while i + 1 < mb.len() + 1 {
-        if i + 1 < mb.len() && mb[i] == b':' && mb[i + 1] == b':' {
-            parts.push(unsafe { core::str::from_utf8_unchecked(&mb[start..i]) });
-            start = i + 2;
-            i += 2;
-        } else {
-            i += 1;
-        }
-    }
-    parts.push(unsafe { core::str::from_utf8_unchecked(&mb[start..]) });
-    parts.push(ident);
-    let mut all_ok = true;
-    let mut k = 0;
-    while k < parts.len() {
-        if !spec_ident(parts[k].as_bytes()) {
-            all_ok = false;
-        }
-        k += 1;
-    }
-    kani::cover!(all_ok && parts.len() == 3, "a::b + ident reachable");
-    if all_ok {
-        let p = Path::new(ident, module);
-        assert!(p.segments.len() == parts.len(), "Path::new: one segment per `::`-separated part plus the ident");
-        let mut j = 0;
-        while j < parts.len() {
-            assert!(p.segments[j].as_bytes() == parts[j].as_bytes(), "Path::new keeps order");
-            j += 1;
-        }
-        let q = Path::new_with_replace(ident, module, &[]);
-        assert!(q == p, "no replacement table: same as Path::new");
-    }
 }
 
 /// BOUNDED: replacement: segments equal to a table key are replaced by the value before validation
@@ -165,11 +110,4 @@ fn path_new_with_replace_small() {
         assert!(p.segments[0].as_bytes() == expect_first.as_bytes(), "module segment replaced iff equal to the key");
         assert!(p.segments[1].as_bytes() == expect_last.as_bytes(), "ident replaced iff equal to the key");
     }
-}
-
-/// BOUNDED: <= 2 segments of <= 3 ASCII bytes, monolithic (the real is_rust_identifier body is executed)
-#[kani::proof]
-#[kani::unwind(6)]
-fn from_segments_mono_2x3() {
-    check_from_segments::<2, 3>();
 }
